@@ -5,41 +5,46 @@ V = os.path.dirname(os.path.dirname(os.path.abspath(__file__)))
 ALL = ['C%02d' % i for i in range(1, 21)]
 
 CHECKS = {
-    'C01': dict(cat='model_checking', engine='E2',
+    'C01': dict(cat='other', engine='E2',
                 technique='bounded symbolic execution of the real templates over a symbolic real scalar; z3 (NRA) decides result == dense product for all values',
                 text='For every shape/pattern/aliasing/alpha configuration inside the bound the real SparseMatrix*::apply code is executed symbolically and z3 decides, over all real values, equality with an independent dense oracle and operand immutability. Bounded (shapes, nnz); real arithmetic (no rounding).',
                 note='Trusted: g++ instantiation with SymReal, term DAG printer (shadow cross-check), z3 5.1.0, dense oracle. Assumes x not aliasing r, real arithmetic. Outside: rounding, MKL/CUDA, larger shapes.',
                 ref='3/C01'),
-    'C02': dict(cat='model_checking', engine='E2',
+    'C02': dict(cat='other', engine='E2',
                 technique='bounded symbolic execution of the real transpose/clone/convert/permute code over a symbolic real scalar for every pattern, clone mode, index-type pair and permutation in the bound; dense-expansion identities + layout validity',
                 text='Every pattern (incl. entry-free, empty rows), clone mode (same and other index type), conversion chain CSR<->CSCR/Banded/BCSR/other index type, row/column permutation and DenseMatrix transpose target shape inside the bound is executed on the real classes with symbolic values; results must represent the same (transposed / permuted) matrix for all values with correct dimensions and valid layout; clone aliasing by pointer identity and write-through.',
                 note='Trusted: SymReal instantiation, DAG printer, z3 5.1.0. Index arrays are concrete per swept pattern (exhaustive within the bound, not symbolic). One defect fixed (transpose of entry-free matrix), one known finding (CSCR conversion with empty rows). Outside: data-type conversions, chains longer than 2, BCSR transpose.',
                 ref='3/C02'),
-    'C03': dict(cat='model_checking', engine='E2',
+    'C03': dict(cat='other', engine='E2',
                 technique='bounded symbolic execution of the real SparseMatrixCSR algebra over a symbolic real scalar; z3 (NRA) decides equality with the dense formula; abort reachability for rejected patterns',
                 text='Every pattern configuration (operands and output pattern) in the bound is executed symbolically; z3 decides over all real values that the result equals the dense textbook formula restricted to the output pattern; incomplete required patterns must reach the abort.',
                 note='Trusted: SymReal instantiation, DAG printer, z3 5.1.0, dense oracle. Real arithmetic; sorted duplicate-free layouts; row-walking kernels need >= 1 stored entry (known finding for scale_rows/cols). Outside: rounding, sqrt accuracy, BCSR variants, larger shapes.',
                 ref='3/C03'),
-    'C04': dict(cat='model_checking', engine='E2',
+    'C04': dict(cat='other', engine='E2',
                 technique='bounded symbolic execution of the real vector classes over a symbolic real scalar; z3 (NRA) decides element-wise definitions for every aliasing pattern',
                 text='Every vector kind (dense, blocked, tuple, power), size and aliasing pattern in the bound is executed symbolically; z3 decides over all real values that each result component equals the element-wise definition on the flattened data; min/max via inequalities + attainment for every ordering.',
                 note='Trusted: SymReal instantiation, DAG printer, z3 5.1.0. Real arithmetic (no rounding, no overflow); min/max only on non-empty vectors; sqrt as algebraic unknown. Outside: sparse vectors, lengths beyond the bound.',
                 ref='3/C04'),
-    'C06': dict(cat='model_checking', engine='E2',
+    'C06': dict(cat='other', engine='E2',
                 technique='bounded symbolic execution of the real filter classes over a symbolic real scalar; z3 (NRA) decides constraint, complement-untouched and idempotence identities',
                 text='Every index-set configuration (insertion orders included) in the bound is executed symbolically on the real UnitFilter/UnitFilterBlocked/SlipFilter/MeanFilter/FilterChain/FilterSequence/TupleFilter classes; z3 decides over all real vectors, prescribed values, normals and weights that constraints hold exactly, unconstrained entries are unchanged, second application is the identity, filtered matrix rows are unit rows.',
                 note='Trusted: SymReal instantiation, DAG printer, z3 5.1.0. Real arithmetic; non-zero normals, positive mean-filter weights; ignore_nans off. Outside: global (MPI) filters, rounding.',
                 ref='3/C06'),
-    'C08': dict(cat='model_checking', engine='E2',
+    'C08': dict(cat='other', engine='E2',
                 technique='bounded symbolic execution of the real preconditioner objects over a symbolic real scalar; z3 (NRA) decides multiply-back identities against textbook operators and an independent dense ILU(p)',
                 text='For every square pattern with diagonal (n<=3), fill level and omega, the factory-built Jacobi/SOR/SSOR/ILU(p)/polynomial/scale/diagonal preconditioners are executed symbolically; z3 decides the defining operator identity over all real matrix values and inputs, input immutability, filter-last, and freshness after init_numeric.',
                 note='Trusted: SymReal instantiation, DAG printer, z3 5.1.0, dense ILU(p) oracle. Real arithmetic, non-zero pivots. Dense 3x3 ILU queries may be inconclusive in quick tier (reported). Outside: BCSR variants, Schwarz/Uzawa/Vanka, rounding.',
                 ref='3/C08'),
-    'C09': dict(cat='model_checking', engine='E2',
+    'C09': dict(cat='other', engine='E2',
                 technique='bounded symbolic execution of the real MultiGrid code with symbolic non-commuting 2x2 mock operands; result term == textbook recursion term (DAG identity or z3), event log == reference',
                 text='For every discrete configuration in the bound (levels, cycle, smoother presence, coarse solver, adaptive CGC, sub-range, repeated apply) the real MultiGrid::apply is executed on symbolic operands; its result must equal the independent recursive V/F/W definition as a function of all operator entries and the defect, and the operator-application order must equal the reference log.',
                 note='Trusted: SymReal, DAG hash-consing, z3 5.1.0, hand-written recursion oracle. Mock operands (template is generic); no ghost/MPI transfers; convergence rates outside.',
                 ref='3/C09'),
+    'C11': dict(cat='model_checking', engine='E3',
+                technique='own IR symbolic executor (z3 bit-vectors, region memory) on Graph::serialize / Graph(buffer); round-trip equality per path; arbitrary symbolic buffers must be rejected or parsed inside the buffer',
+                text='Narrow slice (stated): binary graph serialisation only. For every degree sequence in the bound and all symbolic index values the serialised buffer has the documented header and deserialises to the same graph; for arbitrary buffers of 0..N words with symbolic header fields the constructor either aborts or performs only in-bounds accesses and accepts only self-consistent buffers.',
+                note='Trusted: clang-14 IR, irsym executor (validated by concrete co-execution vs ASan native build), z3 5.1.0. One defect found and fixed (out-of-bounds read for inconsistent counts). NOT covered: XmlScanner, MeshFileReader/Writer, PropertyMap, chart/partition parsers (std::string / iostream code has no IR; mutations there are not detected).',
+                ref='3/C11'),
     'C14': dict(cat='other', engine='table dump + z3 LRA',
                 technique='rule tables produced by executing the real factory code for every advertised name; z3 (exact LRA) searches a polynomial of degree <= nominal degree that is integrated wrongly',
                 text='Weak fit, stated: the cubature code has no input besides the rule name, so it is executed completely for every advertised name (incl. refine/auto-degree prefixes, aliases); the symbolic part is the integrand: z3 decides in exact rational arithmetic that no polynomial of total degree <= nominal degree (coefficients in [-1,1]) has an integration error above 1e-11*sum|w|; unknown/out-of-range names must be refused.',
